@@ -1,4 +1,5 @@
 //! vh — conformance harness binding the TLA+ specification in /verif/tla to sonic-rs (/repo).
+mod dom;
 mod dump;
 mod jt;
 mod lg;
@@ -17,6 +18,7 @@ fn main() {
         "jt-record" => jt::record(&args),
         "lg-record" => lg::record(&args),
         "st-record" => st::record(&args),
+        "dom-replay" => dom::replay(&args),
         _ => { eprintln!("unknown command {cmd}"); 2 }
     };
     std::process::exit(code);
